@@ -251,6 +251,9 @@ func (g *G) boolExpr(d int, leaf bool) string {
 		if g.T.Bool() {
 			return "(" + g.Expr(KEntity, d+1) + " is " + t + ")"
 		}
+		if g.T.Intn(3) == 2 {
+			return "(" + g.Expr(KEntity, d+1) + " is " + t + " in " + access(g.Expr(KEntity, d+1), g.attrName()) + ")"
+		}
 		return "(" + g.Expr(KEntity, d+1) + " is " + t + " in " + g.Expr(KEntity, d+1) + ")"
 	case 12:
 		if g.T.Bool() {
